@@ -12,7 +12,14 @@ EXPLANATION = ("Every function between the leaf handlers and the dispatch is sym
 
 
 def build(world):
-    return hc.build_for(world, PROP)
+    from . import gateway_units as gu
+    units = hc.build_for(world, PROP)
+    # the sending side of the property: parked while the destination sleeps, written at once otherwise - and a value written
+    # at once supersedes an older one still parked for its key (the outgoing set handler and Gateway.send, proved for C12 too)
+    units += [u for u in gu.send_units(world) if "handle_set" in u.name or "Gateway.send[" in u.name]
+    # "1.x with a sleeping flag restored from persistence": the flag a node is constructed with is the flag it has
+    units += [u for u in gu.model_units(world) if "Node.__init__" in u.name]
+    return units
 
 
 def replay(world, ob):
